@@ -93,7 +93,10 @@ impl PatternLinter for ModalOf {
             }
             // False positive: <word> _ might _ of _ course
             7 => return None,
-            _ => unreachable!(),
+            // The whitespace between the words can be more than one token (a blank followed
+            // by a line break, say), which gives other lengths. Don't guess which word is the
+            // modal then.
+            _ => return None,
         };
 
         let span_modal_of = matched_toks[modal_index..modal_index + 3].span().unwrap();
